@@ -306,7 +306,9 @@ func (h *hist) evQuery() {
 		if _, isErr := h.waitOut(p.addr.String(), "e", []byte(t), 100*time.Millisecond); isErr {
 			return
 		}
-		fail("no reply to %s from %v", method, p.addr)
+		// whether queries get answered is C08's business; the table effect of the query has been logged
+		h.tr.Emit(sim.M{"seg": h.seg, "e": "NoReply", "method": method})
+		return
 	}
 	if method == "ping" {
 		return
@@ -610,6 +612,7 @@ func main() {
 	if err != nil {
 		panic(err)
 	}
+	tr.Sync = true
 	if *exhEv != "" {
 		exhReplay(tr, *seed, *exhNosec, *exhPath, *exhEv)
 		tr.Close()
